@@ -159,6 +159,71 @@ theorem C05_many_after_drops (ops : List Op) (ps : List (Nat × List Nat)) (ds :
       List.getElem?_map, List.getElem?_eq_getElem hklt, Option.map_some, ← hsnd]
   exact ⟨(nw[k]).1, hget, C05_contents ops' _ _ _ hget⟩
 
+/-- **C05_send_literal** — the history the library really performs for one message with the regions `ps`: `send` clones every
+region into the message (`cl…`), `sendmsg` puts the clones' descriptors in flight (`fl…`), the clones die when `send`
+returns (`dr…`), the receiver turns the descriptors into handles (`rf…`).  The `ps.length` handles that come out stand in
+message order and each reads its own region's bytes with its own length.  (This is the operation sequence the `shm`
+scenario logs for every message, so the driver replays exactly the histories this theorem quantifies over.) -/
+theorem C05_send_literal (ops : List Op) (ps : List (Nat × List Nat)) (hnf : (run ops).flight = [])
+    (hlive : ∀ p ∈ ps, ∃ h, (run ops).hs[p.1]? = some (some (h, p.2))) :
+    let base := (run ops).hs.length
+    let cl := (List.range ps.length).map (base + ·)
+    let ops' := ops ++ ps.map cloneOf ++ cl.map Op.flight ++ cl.map Op.drop ++ List.replicate ps.length Op.recvFlight
+    (run ops').hs.length = base + ps.length + ps.length ∧ (run ops').flight = [] ∧
+    ∀ k p, ps[k]? = some p → ∃ h', (run ops').hs[base + ps.length + k]? = some (some (h', p.2)) ∧
+      deref (run ops').k h' = .bytes p.2 ∧ h'.length = p.2.length := by
+  intro base cl ops'
+  obtain ⟨nw, hnw, hhs, hfl⟩ := clones_spec ps (run ops) (inv_run ops size_is_length) size_is_length hlive
+  have hnwlen : nw.length = ps.length := by
+    have := congrArg List.length hnw; simpa using this
+  have hrun1 : run (ops ++ ps.map cloneOf) = (ps.map cloneOf).foldl step (run ops) := by
+    simp only [run, List.foldl_append]
+  rw [← hrun1] at hhs hfl
+  let srcs := ps.map Prod.snd
+  let ps2 := cl.zip srcs
+  have hcllen : cl.length = ps.length := by simp [cl]
+  have hps2len : ps2.length = ps.length := by simp [ps2, srcs, hcllen]
+  have hfl2 : ps2.map flightOf = cl.map Op.flight := by
+    have : ps2.map flightOf = (ps2.map Prod.fst).map Op.flight := by simp [flightOf, List.map_map, Function.comp_def]
+    rw [this, List.map_fst_zip (by simp [srcs, hcllen])]
+  have hget2 : ∀ k a b, ps2[k]? = some (a, b) → a = base + k ∧ ∃ p, ps[k]? = some p ∧ p.2 = b := by
+    intro k a b hk
+    obtain ⟨h1, h2⟩ := List.getElem?_zip_eq_some.mp hk
+    constructor
+    · simp only [cl, List.getElem?_map, Option.map_eq_some_iff] at h1
+      obtain ⟨x, hx, rfl⟩ := h1
+      have := List.getElem?_eq_some_iff.mp hx
+      obtain ⟨_, hx'⟩ := this
+      simp at hx'; omega
+    · simp only [srcs, List.getElem?_map, Option.map_eq_some_iff] at h2
+      exact h2
+  have hlive2 : ∀ q ∈ ps2, ∃ h, (run (ops ++ ps.map cloneOf)).hs[q.1]? = some (some (h, q.2)) := by
+    intro q hq
+    obtain ⟨k, hk⟩ := List.getElem?_of_mem hq
+    obtain ⟨ha, p, hp, hp2⟩ := hget2 k q.1 q.2 hk
+    have hklt : k < nw.length := by rw [hnwlen]; exact (List.getElem?_eq_some_iff.mp hp).1
+    have hsnd : (nw[k]).2 = q.2 := by
+      have h1 : (nw.map Prod.snd)[k]? = (ps.map Prod.snd)[k]? := by rw [hnw]
+      simp only [List.getElem?_map, hp, List.getElem?_eq_getElem hklt, Option.map_some] at h1
+      rw [← hp2]; exact Option.some.inj h1
+    refine ⟨(nw[k]).1, ?_⟩
+    rw [hhs, ha, List.getElem?_append_right (Nat.le_add_right _ _), Nat.add_sub_cancel_left,
+      List.getElem?_map, List.getElem?_eq_getElem hklt, Option.map_some, ← hsnd]
+  have hnf1 : (run (ops ++ ps.map cloneOf)).flight = [] := by rw [hfl]; exact hnf
+  have hbase1 : (run (ops ++ ps.map cloneOf)).hs.length = base + ps.length := by
+    rw [hhs]; simp [hnwlen, base]
+  have main := C05_many_after_drops (ops ++ ps.map cloneOf) ps2 cl hnf1 hlive2
+  simp only [hfl2, hps2len, hbase1] at main
+  refine ⟨main.1, main.2.1, ?_⟩
+  intro k p hk
+  have hklt : k < ps2.length := by rw [hps2len]; exact (List.getElem?_eq_some_iff.mp hk).1
+  have hk2 : ps2[k]? = some (ps2[k]) := List.getElem?_eq_getElem hklt
+  obtain ⟨_, p', hp', hp2'⟩ := hget2 k (ps2[k]).1 (ps2[k]).2 hk2
+  rw [hk] at hp'; cases hp'
+  have := main.2.2 k (ps2[k]) hk2
+  rw [← hp2'] at this
+  exact this
+
 /-- **C05_order** — several regions in one message arrive in order, after the channels and before the dedicated socket
 (descriptor order of the message; proved in the control-message model). -/
 theorem C05_order (sys len : Nat) (faults : List Frag.Fault) (chans shms : List Cmsg.Fd) (ded : Cmsg.Fd)
@@ -197,6 +262,10 @@ example : (run (demo2 ++ [0, 2, 0, 1].map Op.drop)).hs[3]? = some (some (⟨some
 /-- `C05_many_after_drops` on a concrete history: every handle dropped while the three regions are in flight -/
 example : let w := run (demo2 ++ [(2, [9, 8]), (1, []), (3, [1, 2, 3])].map flightOf ++ [0, 1, 2, 3].map Op.drop ++ List.replicate 3 Op.recvFlight)
     (w.hs.drop 4).map (fun x => x.map fun p => (deref w.k p.1, p.2)) =
+      [some (.bytes [9, 8], [9, 8]), some (.bytes [], []), some (.bytes [1, 2, 3], [1, 2, 3])] := by decide
+/-- `C05_send_literal` on a concrete message: regions 2, 1 (empty) and 3 (a clone of region 0) of `demo2` -/
+example : let w := run (demo2 ++ [(2, [9, 8]), (1, []), (3, [1, 2, 3])].map cloneOf ++ [4, 5, 6].map Op.flight ++ [4, 5, 6].map Op.drop ++ List.replicate 3 Op.recvFlight)
+    (w.hs.drop 7).map (fun x => x.map fun p => (deref w.k p.1, p.2)) =
       [some (.bytes [9, 8], [9, 8]), some (.bytes [], []), some (.bytes [1, 2, 3], [1, 2, 3])] := by decide
 
 end C05
